@@ -467,12 +467,19 @@ def judge_case(lines_out, metas):
             # the spec does not say what a wait naming an unknown/repeated id returns; whatever it does, the pending
             # requests it named must be completed now or still completable (probe lines R)
             if err == -212:
+                lastr = None
                 for e in extra:
                     if e.startswith('R '):
                         rr = parse_res(e)
                         if int(rr['err']) == -212:
                             return ('refused-wait-leaves-request-uncompletable',
                                     'after %s the pending request is refused: %s' % (line.split(' | ')[0], e.split(' | ')[0]))
+                        lastr = e
+                # every probe (a wait on the single id) succeeded: the record count must be what the blocking calls give
+                if lastr is not None and m.get('numrecs') is not None:
+                    nrec = numrecs_of(lastr)
+                    if nrec is not None and nrec < m['numrecs']:
+                        return ('subset-wait-numrecs-not-updated', '%s R:%d expected numrecs=%d' % (lastr.split(' | ')[0], nrec, m['numrecs']))
                 continue
             if n != m['expn']:
                 sig = 'extract-shortcut-ignores-idlist' if m['shortcut'] else 'wait-pending-count'
@@ -501,7 +508,7 @@ def judge_case(lines_out, metas):
             return ('wait-return-code', '%s expected err=%d' % (line.split(' | ')[0], want_err))
         nrec = numrecs_of(line)
         if m.get('numrecs') is not None and nrec is not None and nrec != m['numrecs']:
-            if m['num'] >= 0 and not m['shortcut'] and nrec < m['numrecs']:
+            if m['num'] >= 0 and nrec < m['numrecs']:
                 return ('subset-wait-numrecs-not-updated', '%s R:%d expected numrecs=%d' % (line.split(' | ')[0], nrec, m['numrecs']))
             return ('wait-numrecs', '%s R:%d expected numrecs=%d' % (line.split(' | ')[0], nrec, m['numrecs']))
         for d in ds:
@@ -554,19 +561,12 @@ def gen_unit(rng, n):
 
 LEAN_FILES = ['PnVerif/Model/Merge.lean', 'PnVerif/Model/ReqQueue.lean', 'PnVerif/Lemmas/MergeLemmas.lean',
               'PnVerif/Lemmas/ReqQueueLemmas.lean', 'PnVerif/Lemmas/ReqQueueWait.lean', 'PnVerif/Lemmas/ReqQueueInv.lean',
+              'PnVerif/Lemmas/ReqQueueFixed.lean',
               'PnVerif/Props/C02.lean', 'Driver/C02.lean']
 
 
 def run_check(tier, seed):
     V = Verdict(PROP, tier, seed)
-    if os.environ.get('VERIF_FINDINGS_PREVIEW'):
-        # builder-side preview only: also honour the finding lines PROPOSED in findings/C02.txt (they take
-        # effect for real once the integrator has merged them into KNOWN_FINDINGS.txt)
-        import re as _re
-        for _l in open(os.path.join(VERIF, 'findings', 'C02.txt')):
-            _m = _re.match(r'finding:\s+property=(\S+)\s+sig=(\S+)\s+(.*)$', _l.strip())
-            if _m and _m.group(1) == PROP:
-                V.known.append(dict(sig=_m.group(2), text=_m.group(3)))
     rng = SplitMix64(seed * 1000003 + 2)
     V.assumptions = [
         'MPI semantics assumed (Model/Merge.lean `transfer`): a read/write with an hindexed file type and an hindexed buffer type moves the k-th byte of the flattened buffer type to/from the k-th byte of the flattened file type',
@@ -652,6 +652,31 @@ def run_check(tier, seed):
         except Exception as ex:
             V.broken_tie('harness c02_nb failed on the layout probe', 'rc=%s %s %s' % (rc, se[-500:], ex))
             return V.finish()
+        # which variant of the three repairable code sites does this tree have?  Replay the witnesses of F21, F19, F4b.
+        vlines = ['L %d %s' % (NVARS, ' '.join(str(x) for x in layout))]
+        for k, (fc, fm, ff) in enumerate(FIXED_CASES):
+            vlines.append('CASE %d 1 65536' % k); vlines += fc
+        open(probe, 'w').write('\n'.join(vlines) + '\n')
+        rc, so, se = mpirun(1, [nexe, probe, os.path.join(wd, 'vprobe.out'), wd], timeout=120)
+        flags = ''
+        try:
+            pc = split_cases([l for l in open(os.path.join(wd, 'vprobe.out.0')).read().split('\n') if l])
+            w21 = [l for l in pc[5] if l.startswith('W ')][0]
+            if numrecs_of(w21) == 4:
+                flags += 'n'
+            w19 = [l for l in pc[3] if l.startswith('W ')][0]
+            if '[0.0.1.0 ' in w19:
+                flags += 'r'
+            w4 = [l for l in pc[1] if l.startswith('W ')][0]
+            if ' n=1 ' in w4:
+                flags += 's'
+        except Exception as ex:
+            V.broken_tie('variant probe failed', 'rc=%s %s %s' % (rc, (se or '')[-300:], ex))
+            return V.finish()
+        flags = flags or '-'
+        V.cov['code_variant'] = dict(flags=flags, numrecs_all_leads='n' in flags, refusal_clears_marks='r' in flags,
+                                     shortcuts_check_ids='s' in flags)
+        log('[S4] code variant of the tree: %s (n = F21 repaired, r = F19 repaired, s = F4 repaired)' % flags)
         ncases = {1: 140, 2: 24, 3: 12} if tier == "quick" else {1: 4000, 2: 600, 3: 300}
         samples = []
         caseno = 0
@@ -694,7 +719,7 @@ def run_check(tier, seed):
                 samples.append(lines[1:12])
             for rank in range(nr):
                 co = [l for l in open(outp + '.%d' % rank).read().split('\n') if l]
-                pm = subprocess.run([drv, 'nb', str(rank)], input='\n'.join(lines) + '\n', stdout=subprocess.PIPE, stderr=subprocess.PIPE, text=True)
+                pm = subprocess.run([drv, 'nb', str(rank), flags], input='\n'.join(lines) + '\n', stdout=subprocess.PIPE, stderr=subprocess.PIPE, text=True)
                 mo = [l for l in pm.stdout.split('\n') if l]
                 cnd = [l for l in co if not l.startswith('D ') and not l.startswith('DE ')]
                 evaluations += len(cnd)
